@@ -52,5 +52,30 @@ def obligations(tier, kf):
     c = Ob('c_changes_order', {}, 300, desc='changes vs key order')
     obs += [s, s.twin(), s.mutant('depfile_first_dir_only_as_target'), c, c.twin()]
     o = Ob('o_set_order', {}, 600, desc='ordered kernels under two schedules of their sets')
-    obs += [o, o.twin(), o.mutant('install_deps_via_set'), o.mutant('directory_deps_via_set')]
+    obs += [o, o.twin(), o.mutant('install_deps_via_set'), o.mutant('directory_deps_via_set'),
+            o.mutant('requirement_split_hash_order'), o.mutant('pc_forwarded_libs_through_set')]
     return obs
+
+
+def real_replay(ob, cex):
+    """o_set_order: the same kernels on the unmodified code in fresh interpreters under different
+    real hash seeds; reproduced iff some ordered result differs between two seeds"""
+    if ob.fn != 'o_set_order':
+        return None
+    import json
+    import os
+    import subprocess
+    import sys
+    n = cex['args'][1]
+    outs = {}
+    for seed in range(12):
+        env = dict(os.environ, PYTHONHASHSEED=str(seed))
+        r = subprocess.run([sys.executable, '-m', 'vpx.harness.c13_seed', str(n)], env=env,
+                           capture_output=True, timeout=120)
+        if r.returncode != 0:
+            return {'reproduced': False, 'detail': 'seed run failed: ' + r.stderr.decode()[-300:]}
+        outs[seed] = json.loads(r.stdout.decode())
+    keys = sorted(outs[0])
+    differing = {k: sorted({json.dumps(outs[s][k]) for s in outs}) for k in keys}
+    differing = {k: v for k, v in differing.items() if len(v) > 1}
+    return {'reproduced': bool(differing), 'detail': {'hash_seeds': 12, 'differing': differing}}
